@@ -55,7 +55,8 @@ STUBBED = ["threading.Thread/Lock/Event, queue.Queue (simkit.cthreads, "
            "stand-in"]
 EXPECT_PROBES = ["w1", "w2", "w3", "w4", "w5", "hub_inline", "hub_threaded",
                  "policy_random", "policy_pct", "switch_in_recoco",
-                 "real_pinger", "loop_on_application_thread"]
+                 "real_pinger", "loop_on_application_thread",
+                 "w2_low_priority_tasks"]
 
 
 def gen_plan(seed, tier):
@@ -90,6 +91,9 @@ def gen_plan(seed, tier):
     for i in range(r.randint(2, 3)):
       steps.append({"thread": i, "wakes": r.randint(1, 3)})
     cfg["direct"] = r.chance(0.3)     # a cooperative task also wakes it
+    if Rng(mix(seed, "w2low")).chance(0.3):
+      # two parked tasks, both below normal priority
+      cfg["w2_low"] = [r.pick([0.25, 0.5, 0.75]) for _ in range(2)]
   elif w == "w3":
     for i in range(r.randint(1, 3)):
       steps.append({"thread": i, "sections": r.randint(1, 2),
@@ -418,30 +422,46 @@ def _w2(sim, world, eng, plan):
   cfg = plan["cfg"]
   R = world.R
   sched = world.sched
-  resumes = []      # (seq, t)
-  wakes = []        # (seq, t)
+  nt = 2 if cfg.get("w2_low") else 1
+  resumes = [[] for _ in range(nt)]      # per target: (seq, t)
+  wakes = [[] for _ in range(nt)]        # per target: (seq, t)
   state = {"stop": False}
 
   class Sleeper(R.Task):
+    def __init__(self_, k):
+      self_.k = k
+      R.Task.__init__(self_)
+
     def run(self_):
       while not state["stop"]:
+        parked[self_.k] = True
         yield False
-        resumes.append((world.next_seq(), sim.now))
-        sim.ev("resume")
-  target = Sleeper()
-  target.start()
+        resumes[self_.k].append((world.next_seq(), sim.now))
+        sim.ev("resume", self_.k)
+  parked = [False] * nt
+  targets = [Sleeper(k) for k in range(nt)]
+  if cfg.get("w2_low"):
+    # tasks below normal priority: the scheduler draws before running one
+    # (seeded), and passes over it when the draw is higher
+    sim.probes["w2_low_priority_tasks"] += 1
+    sched._random = lambda: sim.ch.below("prio", 8) / 8.0
+    for k, t in enumerate(targets):
+      t.start(priority=cfg["w2_low"][k])
+  else:
+    targets[0].start()
 
   def inv(t, frame):
-    n = 0
-    for x in sched._ready:
-      if x is target:
-        n += 1
-    if n > 1:
-      eng.fail("w2/queued-twice", "the woken task is in the ready queue %d "
-               "times" % n)
+    for k, target in enumerate(targets):
+      n = 0
+      for x in sched._ready:
+        if x is target:
+          n += 1
+      if n > 1:
+        eng.fail("w2/queued-twice", "the woken task %d is in the ready queue "
+                 "%d times" % (k, n))
   eng.on_step = inv
   world.start_scheduler()
-  _idle_tasks(world, cfg.get("idle_tasks", 0))
+  _idle_tasks(world, 0 if cfg.get("w2_low") else cfg.get("idle_tasks", 0))
   nthreads = 0
   total = 0
   done = [0]
@@ -451,49 +471,62 @@ def _w2(sim, world, eng, plan):
     nthreads += 1
     total += st["wakes"]
 
-    def body(n=st["wakes"]):
-      for _ in range(n):
-        wakes.append((world.next_seq(), sim.now))
-        sched.schedule(target)
+    def body(n=st["wakes"], i=st["thread"]):
+      if nt > 1:
+        # (a wake-up that arrives before the task has run at all merges with
+        # its start: wait until every task has parked once)
+        eng.block(lambda: all(parked), None)
+      for j in range(n):
+        k = (i + j) % nt
+        wakes[k].append((world.next_seq(), sim.now))
+        sched.schedule(targets[k])
       done[0] += 1
     eng.spawn(body, "f%d" % st["thread"])
   if cfg.get("direct"):
     class Waker(R.Task):
       def run(self_):
         yield 0
-        wakes.append((world.next_seq(), sim.now))
-        sched.schedule(target)
+        while nt > 1 and not all(parked):
+          yield 0
+        wakes[0].append((world.next_seq(), sim.now))
+        sched.schedule(targets[0])
         yield 0
     Waker().start()
     total += 1
 
   def quiet():
-    # all wake calls made, the task has been resumed after the last of
-    # them and nothing is queued
-    if done[0] < nthreads or len(wakes) < total:
+    # all wake calls made, every task has been resumed after the last of
+    # its wake calls and nothing is queued
+    if done[0] < nthreads or sum(len(w) for w in wakes) < total:
       return False
-    return bool(resumes) and resumes[-1][0] > wakes[-1][0] \
-        and target not in sched._ready
+    for k in range(nt):
+      if wakes[k] and not (resumes[k] and resumes[k][-1][0] > wakes[k][-1][0]):
+        return False
+      if targets[k] in sched._ready:
+        return False
+    return True
 
   res = _controller(sim, world, eng, quiet, timeout=20.0)
   fin = eng.run()
   if fin and fin[0] == "abort":
     raise Violation(fin[1], fin[2])
   _finish_check(sim, world, eng, fin, "w2")
-  # the initial run up to the first `yield False` is not a resume
-  if len(resumes) > len(wakes):
-    raise Violation("w2/spurious-resume", "%d resumes for %d wake calls"
-                    % (len(resumes), len(wakes)))
-  if wakes:
-    last = wakes[-1]
-    after = [r for r in resumes if r[0] > last[0]]
-    if not after:
-      raise Violation("w2/lost-wake", "the task was woken %d times but never "
-                      "resumed after the last wake call" % len(wakes))
-    if after[0][1] - last[1] > S.EPS:
-      raise Violation("w2/lost-wakeup", "the resume after the last wake call "
-                      "came %.3f virtual seconds later (polling timeout)"
-                      % (after[0][1] - last[1]))
+  for k in range(nt):
+    # the initial run up to the first `yield False` is not a resume
+    if len(resumes[k]) > len(wakes[k]):
+      raise Violation("w2/spurious-resume", "task %d: %d resumes for %d wake "
+                      "calls" % (k, len(resumes[k]), len(wakes[k])))
+    if wakes[k]:
+      last = wakes[k][-1]
+      after = [r for r in resumes[k] if r[0] > last[0]]
+      if not after:
+        raise Violation("w2/lost-wake", "task %d was woken %d times but "
+                        "never resumed after the last wake call"
+                        % (k, len(wakes[k])))
+      if after[0][1] - last[1] > S.EPS:
+        raise Violation("w2/lost-wakeup", "task %d: the resume after the "
+                        "last wake call came %.3f virtual seconds later "
+                        "(polling timeout)" % (k, after[0][1] - last[1]))
 
 
 # ---------------------------------------------------------------------------
